@@ -1,12 +1,25 @@
 (** C17 — System-contract staking / governance acts for the caller only, atomically.  (PARTIAL)
 
-    PROVED here (about the Go decision logic transcribed in Model/Adapter.v, for ALL log lists):
-    which native messages a receipt is turned into.  MODELLED and only VALIDATED by the
-    correspondence run (harness/cmd/c17): the EVM and the Solidity byte code (Model/AdapterEvm.v),
-    ethermint's transaction atomicity ([deliver]) and the SDK message handlers
-    (Model/AdapterNative.v).  Only statements here; proofs are in Proofs/Adapter*.v. *)
-From Teleport Require Import Base.Bytes Base.Outcome Model.Adapter Proofs.Adapter.
+    What is PROVED, and about what:
+    (A) the Go decision logic of the adapters, transcribed in Model/Adapter.v
+        ([PostTxProcessing], the six handlers, [ParseLog] with go-ethereum's ABI decoder,
+        [ExecuteMsg]/[ValidateBasic], the hook order of app.go) — theorems
+        [C17_hook_*], [C17_lookalike_*], [C17_fields_*], [C17_cast_*], [C17_decode_*], quantified
+        over ALL log lists, ALL router behaviours and ALL field values;
+    (B) the bank keeper override of adapter/bank/keeper.go on a bank model — [C17_supply_*].
+    What is only MODELLED (theorems about the model are labelled "modelled"; the tie to the real
+    component is the differential run of harness/cmd/c17, not a proof):
+    (C) the EVM and the Solidity byte code of Staking / Gov (Model/AdapterEvm.v) —
+        [C17_attribution_end_to_end], [C17_signer_is_msg_sender], [C17_sys_frame_only_by_call];
+    (D) ethermint's transaction atomicity ([deliver]) — [C17_deliver_atomic];
+    (E) the cosmos-sdk handlers reached through the router (Model/AdapterNative.v) —
+        [C17_native_only_signer], [C17_native_conserves].
+    Only statements here; proofs are in Proofs/Adapter*.v. *)
+From Teleport Require Import Base.Bytes Base.Outcome Model.Adapter Model.AdapterEvm Model.AdapterNative
+  Proofs.Adapter Proofs.AdapterAbi Proofs.AdapterFields Proofs.AdapterNative Proofs.AdapterEvm.
 Local Open Scope N_scope.
+
+(** ** (A) the hooks *)
 
 (** hook_one_msg_per_event (full characterisation).  For every router behaviour [exec], hook, log
     list and state: the hook executes exactly the items of the logs it does not skip — a log is
@@ -31,8 +44,8 @@ Proof.
 Qed.
 Print Assumptions C17_hook_success_exact.
 
-(** On failure the hook has already executed the messages before the failing item — the state
-    it leaves in the context is that of a strict prefix; discarding it is the caller's duty. *)
+(** On failure the hook has already executed the messages before the failing item — the state it
+    leaves in the context is that of a strict prefix; discarding it is the caller's duty. *)
 Theorem C17_hook_failure_prefix : forall (S : Type) (exec : msg -> S -> outcome S) h logs s r s',
   post_tx exec h logs s = (r, s') -> r <> Ok tt ->
   exists ms rest, filter_map (classify h) logs = map Ok ms ++ rest /\ run_msgs S exec ms s = Ok s' /\ rest <> [].
@@ -51,9 +64,184 @@ Theorem C17_foreign_receipt_noop : forall (S : Type) (exec : msg -> S -> outcome
 Proof. intros; apply post_tx_all_foreign; assumption. Qed.
 Print Assumptions C17_foreign_receipt_noop.
 
-(** The two adapters in the order of app.go: all staking items first, then all governance items. *)
+(** The two adapters in the order of app.go: all staking items first, then all governance items
+    (so "in log order" holds per contract, not across the two contracts — Refuted/C17_refuted.v). *)
 Theorem C17_multi_hook_order : forall (S : Type) (exec : msg -> S -> outcome S) logs s,
   multi_hook exec logs s =
   run_items S exec (filter_map (classify HStaking) logs ++ filter_map (classify HGov) logs) s.
 Proof. intros; apply multi_hook_char. Qed.
 Print Assumptions C17_multi_hook_order.
+
+(** fields_verbatim: whenever a handler submits a message, each field is the event's field,
+    unchanged: signer = first event field; validator strings byte for byte; amount for every value
+    1 .. 2^256-1; proposal id; options 1..4 and weights 1..100 only (sum 100) — where a Go cast
+    ([uint32 -> int32], [uint64 -> int64]) would change a value, no message is produced. *)
+Theorem C17_fields_verbatim : forall e m,
+  item_of_event e = Ok m ->
+  match e with
+  | EDelegated d v a => exists x, a = Some x /\ m = MDelegate d v (Z.of_N x) /\ v <> [] /\ 0 < x
+  | EUndelegated d v a => exists x, a = Some x /\ m = MUndelegate d v (Z.of_N x) /\ v <> [] /\ 0 < x
+  | ERedelegated d s t a => exists x, a = Some x /\ m = MRedelegate d s t (Z.of_N x) /\ s <> [] /\ t <> [] /\ 0 < x
+  | EWithdrew d v => m = MWithdraw d v /\ v <> []
+  | EVoted d pid opt => opt < 2 ^ 32 -> m = MVote d pid (Z.of_N opt) /\ 1 <= opt <= 4
+  | EVotedW d pid os =>
+      Forall opt_in_range os ->
+      m = MVoteW d pid (map (fun ow => (Z.of_N (fst ow), Z.of_N (snd ow))) os) /\
+      Forall (fun ow => 1 <= fst ow <= 4 /\ 1 <= snd ow <= 100) os /\
+      fold_right (fun ow acc => snd ow + acc) 0 os = 100
+  end.
+Proof. exact item_fields_verbatim. Qed.
+Print Assumptions C17_fields_verbatim.
+
+(** the cast boundaries, explicitly: what the code does there is reject (hook error => revert) *)
+Theorem C17_cast_vote_option_rejected : forall d pid opt,
+  2 ^ 31 <= opt < 2 ^ 32 -> item_of_event (EVoted d pid opt) = Err.
+Proof. exact vote_option_cast_boundary_rejected. Qed.
+Print Assumptions C17_cast_vote_option_rejected.
+
+Theorem C17_cast_vote_weight_rejected : forall d pid os o w,
+  Forall opt_in_range os -> In (o, w) os -> 2 ^ 63 <= w -> item_of_event (EVotedW d pid os) = Err.
+Proof. exact vote_weight_cast_boundary_rejected. Qed.
+Print Assumptions C17_cast_vote_weight_rejected.
+
+Theorem C17_amount_full_range : forall d v a,
+  v <> [] -> 0 < a -> item_of_event (EDelegated d v (Some a)) = Ok (MDelegate d v (Z.of_N a)).
+Proof. exact amount_verbatim_full_range. Qed.
+Print Assumptions C17_amount_full_range.
+
+(** decoding: [ParseLog] (go-ethereum's decoder as transcribed) reads back exactly the fields of
+    an event encoded the way Solidity emits it (standard ABI encoding), for every well-formed event *)
+Theorem C17_decode_roundtrip : forall e,
+  wf_event e -> parse_log (kind_of_event e) 1 (encode_event e) = Some e.
+Proof. exact parse_log_encode. Qed.
+Print Assumptions C17_decode_roundtrip.
+
+(** ... hence the canonical log emitted AT the system address is turned into the item of exactly
+    that event by the hook of that contract, and into nothing by the other hook or when emitted
+    from any other address *)
+Theorem C17_canonical_log_classified : forall e,
+  wf_event e ->
+  classify (hook_of_kind (kind_of_event e)) (log_of_event (sys_addr (hook_of_kind (kind_of_event e))) e)
+  = Some (item_of_event e).
+Proof. exact classify_canonical. Qed.
+Print Assumptions C17_canonical_log_classified.
+
+Theorem C17_canonical_log_elsewhere_ignored : forall e h self,
+  self <> sys_addr h -> classify h (log_of_event self e) = None.
+Proof. exact classify_canonical_foreign. Qed.
+Print Assumptions C17_canonical_log_elsewhere_ignored.
+
+(** ** (B) supply: with the overridden BurnCoins, over ALL sequences of native messages, burns
+    (slashing, deposit burning) and plain sends — failing actions being discarded — the total
+    supply and the sum of all balances never change. *)
+Theorem C17_supply_unchanged : forall resolve bonded notbonded distr fee max_entries acts s,
+  n_supply (run_actions resolve bonded notbonded distr fee max_entries acts s) = n_supply s /\
+  total_bal (run_actions resolve bonded notbonded distr fee max_entries acts s) = total_bal s.
+Proof. intros; apply supply_unchanged_all. Qed.
+Print Assumptions C17_supply_unchanged.
+
+(** the burned coins arrive at the fee collector *)
+Theorem C17_burn_goes_to_fee_collector : forall fee module a s s',
+  burn_coins fee module a s = Ok s' ->
+  n_supply s' = n_supply s /\ total_bal s' = total_bal s /\ (module <> fee -> bal s' fee = (bal s fee + a)%Z).
+Proof. exact burn_coins_conserves. Qed.
+Print Assumptions C17_burn_goes_to_fee_collector.
+
+(** necessity of the override: the SDK's own BurnCoins shrinks the supply *)
+Theorem C17_base_burn_shrinks_supply : forall module a s s',
+  burn_coins_base module a s = Ok s' -> n_supply s' = (n_supply s - a)%Z /\ total_bal s' = (total_bal s - a)%Z.
+Proof. exact burn_coins_base_shrinks. Qed.
+Print Assumptions C17_base_burn_shrinks_supply.
+
+(** ** (D) atomicity — MODELLED wrapper [deliver] (ethermint ApplyTransaction + BaseApp recovery;
+    validated on real transactions, not proved about ethermint): if the hooks fail or panic, the
+    state is the one before the transaction, EVM changes included; if they succeed the state is
+    the hooks' result on top of the EVM changes. *)
+Theorem C17_deliver_atomic : forall (S : Type) (exec : msg -> S -> outcome S) evm logs s r s',
+  deliver exec evm logs s = (r, s') ->
+  (r <> Ok tt -> s' = s) /\ (r = Ok tt -> multi_hook exec logs (evm s) = (Ok tt, s')).
+Proof.
+  intros S exec evm logs s r s' H. split.
+  - intro N. eapply deliver_fail; eauto.
+  - intros ->. apply deliver_ok; exact H.
+Qed.
+Print Assumptions C17_deliver_atomic.
+
+(** ** (E) native handlers — MODELLED: a message changes delegations, unbondings, redelegations,
+    votes and the balance of its signer only (besides the module pools its coins move through),
+    and never the supply or the sum of balances. *)
+Theorem C17_native_only_signer : forall resolve bonded notbonded distr max_entries m s s',
+  exec_native resolve bonded notbonded distr max_entries m s = Ok s' ->
+  forall d', d' <> signer m ->
+    (forall i, aget dkey_eqb (n_dels s') (d', i) = aget dkey_eqb (n_dels s) (d', i)) /\
+    (forall i, aget dkey_eqb (n_ubds s') (d', i) = aget dkey_eqb (n_ubds s) (d', i)) /\
+    (forall i j, aget rkey_eqb (n_reds s') (d', i, j) = aget rkey_eqb (n_reds s) (d', i, j)) /\
+    (forall p, aget vkey_eqb (n_votes s') (p, d') = aget vkey_eqb (n_votes s) (p, d')) /\
+    (d' <> bonded -> d' <> notbonded -> d' <> distr -> bal s' d' = bal s d').
+Proof. intros; eapply exec_native_only_signer; eauto. Qed.
+Print Assumptions C17_native_only_signer.
+
+Theorem C17_native_conserves : forall resolve bonded notbonded distr max_entries m s s',
+  exec_native resolve bonded notbonded distr max_entries m s = Ok s' ->
+  n_supply s' = n_supply s /\ total_bal s' = total_bal s.
+Proof. intros; eapply exec_native_conserves; eauto. Qed.
+Print Assumptions C17_native_conserves.
+
+(** ** (C) end to end in the MODELLED EVM: for every well-formed user transaction (any call tree
+    over the system contracts, forwarding proxies with CALL / DELEGATECALL / STATICCALL / CALLCODE,
+    reverting or not, and look-alike emitters), the native items executed by the hooks are exactly
+    the surviving invocations of system-contract code running AT the system address — staking
+    ones first — each built from that frame's msg.sender and call arguments. *)
+Theorem C17_attribution_end_to_end : forall (S : Type) (exec : msg -> S -> outcome S) t s,
+  wf_tx t = true -> tx_sizes_ok t ->
+  multi_hook exec (fr_logs (run_tx t)) s =
+  run_items S exec (map item_of_inv (filter (inv_for HStaking) (fr_inv (run_tx t))) ++
+                    map item_of_inv (filter (inv_for HGov) (fr_inv (run_tx t)))) s.
+Proof. intros S exec t s W Z. rewrite multi_hook_char, !run_tx_spec by assumption. reflexivity. Qed.
+Print Assumptions C17_attribution_end_to_end.
+
+Theorem C17_signer_is_msg_sender : forall iv m, item_of_inv iv = Ok m -> msg_signer m = snd (fst iv).
+Proof. exact item_signer. Qed.
+Print Assumptions C17_signer_is_msg_sender.
+
+(** a frame at the system address can only be entered by CALL / STATICCALL on that address, and
+    its msg.sender is then the immediate caller (DELEGATECALL / CALLCODE keep the caller's address) *)
+Theorem C17_sys_frame_only_by_call : forall k target x h,
+  is_sys_addr (fx_self x) = false -> fx_self (child_ctx k target x) = sys_addr h ->
+  (k = KCall \/ k = KStaticCall) /\ target = sys_addr h /\ fx_sender (child_ctx k target x) = fx_self x.
+Proof. exact child_at_sys_only_by_call. Qed.
+Print Assumptions C17_sys_frame_only_by_call.
+
+(** ** non-vacuity *)
+Definition ex_val : bytes := B "teleportvaloper1xyz".
+Definition ex_eoa : bytes := repeat x11 20.
+Definition ex_proxy : bytes := repeat x22 20.
+Definition ex_rec (m : msg) (s : list msg) : outcome (list msg) := Ok (s ++ [m]).
+
+(** a well-formed event exists; a receipt with a look-alike (same topic and data, other address),
+    the real event and an unknown topic yields exactly the one message, signed by the emitter's
+    first field *)
+Example C17_nonvacuous_hook :
+  let e := EDelegated ex_eoa ex_val (Some 5) in
+  wf_event e /\
+  post_tx ex_rec HStaking
+    [log_of_event ex_proxy e; log_of_event staking_addr e;
+     {| l_addr := staking_addr; l_topics := [repeat x00 32]; l_data := [] |}] []
+  = (Ok tt, [MDelegate ex_eoa ex_val 5]).
+Proof.
+  cbv zeta. split; [|vm_compute; reflexivity].
+  split; [vm_compute; reflexivity | split; [reflexivity | vm_compute; reflexivity]].
+Qed.
+
+(** call trees: EOA -> proxy -CALL-> Staking.delegate acts for the PROXY; the same through
+    DELEGATECALL acts for nobody; the hypotheses of the end-to-end theorem hold for both *)
+Example C17_nonvacuous_frames :
+  let call k := {| tx_sender := ex_eoa; tx_to := ex_proxy;
+                   tx_code := CProxy k false false false staking_addr (CSys HStaking (FDelegate ex_val 5)) |} in
+  wf_tx (call KCall) = true /\ wf_tx (call KDelegateCall) = true /\
+  fr_inv (run_tx (call KCall)) = [(HStaking, ex_proxy, FDelegate ex_val 5)] /\
+  fr_inv (run_tx (call KDelegateCall)) = [] /\
+  fr_ok (run_tx (call KDelegateCall)) = true /\
+  multi_hook ex_rec (fr_logs (run_tx (call KCall))) [] = (Ok tt, [MDelegate ex_proxy ex_val 5]) /\
+  multi_hook ex_rec (fr_logs (run_tx (call KDelegateCall))) [] = (Ok tt, []).
+Proof. cbv zeta. repeat split; vm_compute; reflexivity. Qed.
